@@ -68,3 +68,33 @@ for _su, _sfx, _seltxt in ((0, '', ''), (1, '.selundef', ' or undefined (TEST)')
            'equal the definition; the counts equal the number of active (and defined) samples',
       out='ELoc::DOM domains; NaN as undefined value',
       assumptions=_ass, stubs=_C05A_STUBS)
+
+
+# ---------------------------------------------------------------- C05.d moving-neighbourhood candidate loop (same harness and overrides as C06.h, vf/reg/C06.py;
+# built with VF_C05 so that only the masking clause is asserted)
+_C05D_TUS = ['src/Neigh/NeighMoving.cpp', 'src/Neigh/ANeigh.cpp', 'src/Db/Db.cpp', 'src/Basic/VectorHelper.cpp', 'src/Geometry/BiTargetCheckDistance.cpp',
+             'src/Geometry/ABiTargetCheck.cpp', 'src/Geometry/GeometryHelper.cpp', 'src/Basic/AStringable.cpp', 'src/Basic/Utilities.cpp']
+_C05D_STUBS = [
+    'NeighMoving object is raw storage (no constructor): _dbin, _dbout, _dbgrid (both), _flagSimu, _flagXvalid, _flagKFold, _useBallSearch, _nMini, _nMaxi, _nSect = 1, _nSMax, '
+    '_movingInd/_movingDst/_movingIsect/_movingNsect sized as attach() does, _biPtDist, _bipts',
+    'the two Db objects are raw storage + the vptr of harness class MovDb; _nech set (read by the real Db::isSampleIndexValid)',
+    'Db::getSampleNumber -> VF_NECH; Db::isActive -> symbolic act[iech]',
+    'Db::getSampleAsSTInPlace -> loads nothing, remembers which sample sits in T2',
+    'Db::getLocNumber -> symbolic 0 or 2 for ELoc::Z, 2 for ELoc::SIMU (recognised by address); Db::getZVariable / getLocVariable(SIMU) -> TEST or a grid value per symbolic undefined-pattern tables',
+    'ANeigh::_xvalid -> symbolic xv[iech_in]; ASpaceObject::getNDim -> 2; OptDbg::query -> false',
+    'BiTargetCheckDistance::isOK -> symbolic in[i] and distance d[i] for the sample loaded in T2; two harness subclasses of ABiTargetCheck in _bipts answering symbolic ok1[i], ok2[i]',
+    'operator new(size_t, nothrow_t) -> nullptr (std::get_temporary_buffer of std::stable_sort; same stub as C11.e)',
+]
+for _n, _tiers in ((3, ('quick', 'thorough')), (4, ('thorough',))):
+    K('C05.d.%d' % _n, property='C05', engine='symex', harness='C06/moving.cpp', entries=['k_moving_m%d' % _m for _m in range(1 << _n)], tus=_C05D_TUS,
+      defines={'all': {'VF_NECH': _n, 'VF_C05': 1}}, tiers=_tiers, cxxflags=['-fno-sanitize=vptr'],
+      bounds={'quick': 'exactly %d samples in the input Db, every admissibility pattern (one entry per pattern, 2^%d) and for an inadmissible sample every combination of reasons '
+                       '(masked, all variables undefined for the Z or SIMU locator with 0 or 2 variables, cross-validation exclusion, two extra pair checkers, distance checker); '
+                       'arbitrary nmini, arbitrary nmaxi > 0, arbitrary distinct integer-valued distances in any order; cross-validation and simulation flags arbitrary' % (_n, _n)},
+      timeout_ms={'quick': 120000, 'thorough': 600000}, validate={'quick': 30, 'thorough': 60}, validate_doubles='int',
+      what='NeighMoving::getNeigh, _moving (candidate loop with the real ANeigh::_discardUndefined + Db::isAllUndefined / isAllUndefinedByType, sort, _movingSelect), ANeigh::_neighCompress: '
+           'a masked sample, or a sample whose variables (Z locator, SIMU locator in simulation mode) are all undefined, never appears in the returned neighbourhood ranks, '
+           'whatever the other filters, distances, nmini and nmaxi',
+      out='identical-to-physical-removal for the kriging results downstream; undefined coordinates; angular sectors; ball-tree pre-selection; NaN as undefined value',
+      assumptions=['undefined value is TEST = 1.234e30 (FFFF(x) is x > 1e30 in the NaN-free reading)', 'nmaxi > 0; distances pairwise distinct integer-valued reals (see C06.h)'],
+      stubs=_C05D_STUBS)
